@@ -17,11 +17,14 @@ package syncx_test
 // the virtual instant. Oracles are invariants over that history.
 
 import (
+	"context"
 	"errors"
 	"fmt"
 	"hash/crc32"
 	"hash/fnv"
+	"io"
 	"math"
+	"os"
 	"runtime"
 	"sort"
 	"strconv"
@@ -52,6 +55,7 @@ type c18Op struct {
 	M   int    `json:"m,omitempty"`   // instance of the primitive the call goes to (0 or 1)
 	E   int    `json:"e,omitempty"`   // kind of error VALUE a failing callback / closer returns (c18MakeErr)
 	R   int    `json:"r,omitempty"`   // 1: the callback calls back into the same object (next key up; keys are ordered, so no cycle)
+	V   int    `json:"v,omitempty"`   // kind of VALUE a single-flight callback returns (c18MakeVal)
 }
 
 // c18Inst: several instances of one primitive live in one process (and one
@@ -324,6 +328,7 @@ type c18Ev struct {
 	Fresh    bool
 	Res      int
 	Pan      bool   // the call panicked (recovered by the harness)
+	Sig      string // c18Sig of the (value, error) pair the call returned
 	Foreign  string // a panic value that no generated callback raised
 }
 
@@ -335,6 +340,8 @@ type c18Exec struct {
 	Start, End c18Stamp
 	Fail       bool
 	Pan        bool // the callback panicked
+	NoID       bool   // the error it returned is a value that cannot carry the execution id (context.Canceled, io.EOF, typed nil ...)
+	Sig        string // c18Sig of the (value, error) pair it returned
 }
 
 // Error VALUES are a generated dimension: primitives that hand on, aggregate
@@ -373,7 +380,50 @@ const (
 	c18ErrComposite  = 6 // errorx.BatchError.Err() holding two errors: errorx's own slice type, not comparable
 	c18ErrMap        = 7 // struct with a map: not comparable
 	c18ErrKindsCount = 8
+	// results of a fetch / call that callers meet in practice (single-flight
+	// results only: kinds >= 8 are never drawn for closers)
+	c18ErrCtxCanceled    = 8  // context.Canceled itself (no id)
+	c18ErrCtxDeadline    = 9  // context.DeadlineExceeded itself (no id)
+	c18ErrWrapCanceled   = 10 // fmt.Errorf("...%w", ctx.Err()) of a really cancelled context
+	c18ErrWrapDeadline   = 11 // fmt.Errorf("...%w", context.DeadlineExceeded)
+	c18ErrEOF            = 12 // io.EOF (no id)
+	c18ErrPtr            = 13 // custom pointer type
+	c18ErrTypedNil       = 14 // (*c18PtrErr)(nil): a non-nil error interface holding a nil pointer (no id)
+	c18ErrIsCanceled     = 15 // custom type whose Is method matches context.Canceled
+	c18ErrNetTimeout     = 16 // custom type with Timeout() / Temporary(), errors.Is os.ErrDeadlineExceeded
+	c18ErrDoubleWrap     = 17 // %w around %w around context.DeadlineExceeded
+	c18FlightErrKindsEnd = 18
 )
+
+type c18PtrErr struct{ id int }
+
+func (e *c18PtrErr) Error() string {
+	if e == nil {
+		return "c18 typed nil error"
+	}
+	return fmt.Sprintf("c18 pointer error #%d", e.id)
+}
+
+type c18IsErr struct{ id int }
+
+func (e c18IsErr) Error() string        { return fmt.Sprintf("c18 rpc status CANCELLED #%d", e.id) }
+func (e c18IsErr) Is(target error) bool { return target == context.Canceled }
+
+type c18NetErr struct{ id int }
+
+func (e c18NetErr) Error() string        { return fmt.Sprintf("c18 i/o timeout #%d", e.id) }
+func (e c18NetErr) Timeout() bool        { return true }
+func (e c18NetErr) Temporary() bool      { return true }
+func (e c18NetErr) Is(target error) bool { return target == os.ErrDeadlineExceeded }
+
+// c18ErrCarriesID: kinds whose value cannot carry the execution id
+func c18ErrNoID(kind int) bool {
+	switch kind {
+	case c18ErrSentinel, c18ErrCtxCanceled, c18ErrCtxDeadline, c18ErrEOF, c18ErrTypedNil:
+		return true
+	}
+	return false
+}
 
 func c18MakeErr(kind, id int) error {
 	switch kind {
@@ -393,6 +443,29 @@ func c18MakeErr(kind, id int) error {
 		return be.Err()
 	case c18ErrMap:
 		return c18MapErr{id: id, info: map[string]int{"id": id}}
+	case c18ErrCtxCanceled:
+		return context.Canceled
+	case c18ErrCtxDeadline:
+		return context.DeadlineExceeded
+	case c18ErrWrapCanceled:
+		ctx, cancel := context.WithCancel(context.Background())
+		cancel()
+		return fmt.Errorf("c18 fetch gave up: %w #%d", ctx.Err(), id)
+	case c18ErrWrapDeadline:
+		return fmt.Errorf("c18 fetch gave up: %w #%d", context.DeadlineExceeded, id)
+	case c18ErrEOF:
+		return io.EOF
+	case c18ErrPtr:
+		return &c18PtrErr{id}
+	case c18ErrTypedNil:
+		var e *c18PtrErr
+		return e
+	case c18ErrIsCanceled:
+		return c18IsErr{id}
+	case c18ErrNetTimeout:
+		return c18NetErr{id}
+	case c18ErrDoubleWrap:
+		return fmt.Errorf("c18 query: %w #%d", fmt.Errorf("dial: %w", context.DeadlineExceeded), id)
 	}
 	return c18TagErr{id}
 }
@@ -405,6 +478,84 @@ func c18ErrKind(rt *rapid.T, withShared bool) int {
 		kinds = append(kinds, c18ErrSentinel, c18ErrSentinel)
 	}
 	return rapid.SampledFrom(kinds).Draw(rt, "errkind")
+}
+
+// c18FlightErrKind draws the error of a failing single-flight callback from
+// the whole family: half of the time one of the kinds a fetch under a request
+// context ends with.
+func c18FlightErrKind(rt *rapid.T) int {
+	if rapid.Bool().Draw(rt, "fetchError") {
+		return rapid.SampledFrom([]int{c18ErrWrapCanceled, c18ErrCtxCanceled, c18ErrCtxDeadline, c18ErrWrapDeadline, c18ErrEOF, c18ErrPtr, c18ErrTypedNil, c18ErrIsCanceled, c18ErrNetTimeout, c18ErrDoubleWrap, c18ErrCtxCanceled, c18ErrWrapDeadline}).Draw(rt, "fetchErrKind")
+	}
+	return c18ErrKind(rt, false)
+}
+
+// VALUES a single-flight callback returns (op.V). Kinds 6 and 7 cannot carry
+// the execution id; they are only used together with an error that does.
+type c18ValStruct struct{ ID int }
+
+const c18ValKinds = 8
+
+func c18MakeVal(kind, id int) interface{} {
+	switch kind {
+	case 1:
+		return fmt.Sprintf("value #%d", id)
+	case 2:
+		return c18ValStruct{id}
+	case 3:
+		return &c18ValStruct{id}
+	case 4:
+		return []int{id}
+	case 5:
+		return map[string]int{"id": id}
+	case 6:
+		return nil
+	case 7:
+		var p *c18ValStruct
+		return p
+	}
+	return id
+}
+
+// c18ValID: the execution id a value carries, -1 if none.
+func c18ValID(val interface{}) int {
+	switch x := val.(type) {
+	case int:
+		return x
+	case string:
+		return c18ErrTag(errors.New(x))
+	case c18ValStruct:
+		return x.ID
+	case *c18ValStruct:
+		if x != nil {
+			return x.ID
+		}
+	case []int:
+		if len(x) == 1 {
+			return x[0]
+		}
+	case map[string]int:
+		if id, ok := x["id"]; ok && len(x) == 1 {
+			return id
+		}
+	}
+	return -1
+}
+
+// c18Sig: dynamic types and contents of a (value, error) pair. Two calls
+// served by one execution must show the very same signature as that execution.
+func c18Sig(val interface{}, err error) string {
+	s := fmt.Sprintf("%T|%v", val, val)
+	if p, ok := val.(*c18ValStruct); ok && p != nil {
+		s = fmt.Sprintf("%T|%p", val, p) // the same pointer, not a copy
+	}
+	if err == nil {
+		return s + " || <nil>"
+	}
+	if p, ok := err.(*c18PtrErr); ok {
+		return s + fmt.Sprintf(" || %T|%p|%s", err, p, err.Error())
+	}
+	return s + fmt.Sprintf(" || %T|%s", err, err.Error())
 }
 
 // c18ErrTag: 0 for nil, the id after the last '#' of the message, -1 otherwise.
